@@ -77,6 +77,15 @@ theorem success_leaves_empty_buffer (s : DecState) (c : Call) (out : Bytes)
 
 example : C13_full := history_independent
 
+/-- the same on the integer entry point (`decodeStepI`: negative left offsets are normalised first) -/
+def runI (reset : Bool) : DecState → List Request → DecState
+  | s, [] => s
+  | s, r :: rs => runI reset (decodeStepI reset s r).1 rs
+
+theorem history_independent_request (calls : List Request) (r : Request) :
+    (decodeStepI true (runI true DecState.init calls) r).2 = (decodeStepI true DecState.init r).2 :=
+  step_result_state_free _ _ r.normalise
+
 /-! ### F11: the code before the repair (`reset = false`) does not have the property -/
 
 /-- an 8-bit request with a three-byte custom palette: `struct.pack` raises after both headers were written -/
